@@ -51,14 +51,22 @@ def program_family(res, tier, rnd):
     scs, metas = [], []
     for fps in (1, 60, 120):
         for n in (1, 3, 12):
-            for variant in ("plain", "released", "alt-roundtrip"):
+            for variant in ("plain", "released", "alt-roundtrip", "slow-writer"):
                 script = [P.W("started")]
                 if variant == "released":
                     script += [P.W("idle"), P.DO("release-terminal")]
                 if variant == "alt-roundtrip":
                     script += [P.W("idle"), P.DO("send", msg=P.B("enteralt")), P.DO("send", msg=P.U(90)), P.DO("sleep", us=30000), P.DO("send", msg=P.B("exitalt"))]
+                extra = {}
+                if variant == "slow-writer":
+                    # the terminal is slow: the Write call carrying the frame of the first update takes 150 ms; the
+                    # remaining updates and the quit arrive while it is in progress
+                    if fps == 1:
+                        continue
+                    extra["out_fault"] = {"match": "view 1", "delay_us": 150000}
+                    script += [P.W("idle"), P.DO("send", msg=P.U(90)), P.DO("sleep", us=40000)]
                 script += [P.DO("send", msg=P.U(k)) for k in range(n)] + [P.DO("quit"), P.W("returned")]
-                scs.append(P.scenario(len(scs), script, opts={"fps": fps}, parallel_ok=True, watchdog_ms=4000))
+                scs.append(P.scenario(len(scs), script, opts={"fps": fps}, parallel_ok=True, watchdog_ms=4000, **extra))
                 metas.append({"fps": fps, "updates": n, "variant": variant})
     results, _ = P.run_scenarios("C07_prog", scs, timeout=600)
     bad = []
